@@ -16,6 +16,22 @@ func init() { All["C06"] = c06 }
 // base58.FastBase58Encoding(hmac.New(sha256.New, K).Sum(N)) and returns the
 // paths of K and N.
 func tokenIdForm(v ssa.Value) (form string, key, nonce core.Path, ok bool) {
+	// the derivation may live in a module helper: evaluate what it returns, with
+	// its parameters standing for the call's arguments
+	if vals, subst, h := helperResult(v); h != nil && len(vals) > 0 {
+		first := true
+		core.WithSubst(subst, func() {
+			for _, rv := range vals {
+				f2, k2, n2, ok2 := tokenIdForm(rv)
+				if first {
+					form, key, nonce, ok, first = f2, k2, n2, ok2, false
+				} else if f2 != form || !ok2 {
+					ok = false
+				}
+			}
+		})
+		return form, key, nonce, ok
+	}
 	c, idx := core.CallResult(core.Strip(v))
 	if c == nil || idx != 0 {
 		return "not a call: " + core.ValueName(v), key, nonce, false
@@ -182,6 +198,14 @@ func c06Create(c *Ctx, validatorForm string) {
 				bad = append(bad, p.Pos(x.Pos())+" token nonce object is stored")
 			}
 		case *ssa.Call:
+			if h := core.ModuleCallee(x.Common()); h != nil {
+				for i, a := range x.Common().Args {
+					if a == ssa.Value(nonce) && i < len(h.Params) {
+						bad = append(bad, nonceUses(p, h.Params[i], 1)...)
+					}
+				}
+				continue
+			}
 			bad = append(bad, p.Pos(x.Pos())+" token nonce object passed to "+shortName(core.CalleeName(x.Common())))
 		}
 	}
@@ -324,16 +348,7 @@ func c06Validator(c *Ctx) (string, bool) {
 		}
 	}
 	// the time tests in the validator: exactly IsZero + expiry, one clock reading used in expiry
-	nrel := 0
-	for _, b := range T.Blocks {
-		for _, in := range b.Instrs {
-			if cc, ok := in.(*ssa.Call); ok {
-				if _, ok := core.TimeRelOf(cc); ok {
-					nrel++
-				}
-			}
-		}
-	}
+	nrel := countTimeRels(T)
 	r.Check(nrel == 1, "R-C06.1", tname+" number of time comparisons", p.Pos(T.Pos()), "exactly the expiry comparison", fmt.Sprintf("%d time comparisons; only the expiry test is expected", nrel))
 
 	// R-C06.2: failure edge of Remove reaches only error returns
@@ -369,4 +384,55 @@ func c06Validator(c *Ctx) (string, bool) {
 	}
 
 	return vform, true
+}
+
+// nonceUses lists disallowed uses of a token-nonce object inside a helper:
+// the HMAC key half may only be the key of hmac.New (or a length / random
+// fill); the object may only be marshalled.
+func nonceUses(p *core.Prog, obj ssa.Value, depth int) []string {
+	var bad []string
+	refs := obj.Referrers()
+	if refs == nil {
+		return nil
+	}
+	for _, ref := range *refs {
+		switch x := ref.(type) {
+		case *ssa.FieldAddr:
+			_, fname := core.FieldAddrName(x)
+			if fname != "HmacKeyBytes" {
+				continue
+			}
+			for _, r2 := range *x.Referrers() {
+				ld, ok := r2.(*ssa.UnOp)
+				if !ok {
+					bad = append(bad, p.Pos(r2.Pos())+" HmacKeyBytes written in helper")
+					continue
+				}
+				for _, use := range *ld.Referrers() {
+					switch u := use.(type) {
+					case *ssa.Call:
+						n := core.CalleeName(u.Common())
+						if (n == "crypto/hmac.New" && len(u.Call.Args) == 2 && u.Call.Args[1] == ssa.Value(ld)) || n == "builtin:len" {
+							continue
+						}
+						bad = append(bad, p.Pos(u.Pos())+" HmacKeyBytes passed to "+shortName(n))
+					case *ssa.DebugRef:
+					default:
+						bad = append(bad, p.Pos(use.Pos())+" HmacKeyBytes used by "+fmt.Sprintf("%T", use))
+					}
+				}
+			}
+		case *ssa.DebugRef, *ssa.BinOp:
+		case *ssa.MakeInterface:
+			for _, use := range *x.Referrers() {
+				if u, ok := use.(*ssa.Call); ok && core.CalleeName(u.Common()) == "google.golang.org/protobuf/proto.Marshal" {
+					continue
+				}
+				bad = append(bad, p.Pos(use.Pos())+" token nonce object escapes in helper")
+			}
+		default:
+			bad = append(bad, p.Pos(ref.Pos())+" token nonce object used by "+fmt.Sprintf("%T", ref)+" in helper")
+		}
+	}
+	return bad
 }
